@@ -31,7 +31,15 @@ def sizes_for(ctx):
 def run(ctx, ps, gen_bad):
     sizes, fill = sizes_for(ctx)
     out = os.path.join(ctx.work, 'c15.txt')
-    rc, o, e = vlib.harness(['c15', '-sizes', ','.join(map(str, sizes)), '-fill', ','.join(map(str, fill)), '-out', out], timeout=3000)
+    # consecutive sizes as a-b ranges (one argument may not exceed 128 KB)
+    parts, i = [], 0
+    while i < len(sizes):
+        j = i
+        while j + 1 < len(sizes) and sizes[j + 1] == sizes[j] + 1:
+            j += 1
+        parts.append(str(sizes[i]) if i == j else '%d-%d' % (sizes[i], sizes[j]))
+        i = j + 1
+    rc, o, e = vlib.harness(['c15', '-sizes', ','.join(parts), '-fill', ','.join(map(str, fill)), '-out', out], timeout=3000)
     fails = []
     if rc != 0:
         fails.append(Failure('C15', 'panic', 'harness', e[-500:]))
